@@ -165,10 +165,42 @@ def rule_l2(chk: Check, ix: Index):
                             f"characters are emitted twice or skipped")
     ap = ix.get("TokenizerState.add_prog")
     chk.count("L2-accumulation")
-    txt = norm_stmt(ap.node)
-    chk.require("text=self.line[start:end]" in txt and "start=(self.lnum, start)" in txt and "contline=self.line" in txt,
+    kws = {}
+    for n in ast.walk(ap.node):
+        if isinstance(n, ast.Call) and norm_stmt(n.func) == "EndProg":
+            kws = {k.arg: norm_stmt(k.value) for k in n.keywords if k.arg}
+    chk.require(kws.get("text") == "self.line[start:end]" and kws.get("start") == "(self.lnum, start)" and kws.get("contline") == "self.line",
                 "L2-accumulation", "TokenizerState.add_prog", ap.where,
                 "a new accumulation must start with the slice [start:end] and record (line, start) as its start")
+    # buffered text of earlier lines must be flushed before the mode changes: every guard in front of the FSTRING_MIDDLE emission
+    # has to be true whenever the buffer is non-empty
+    hf = ix.get("handle_fstring_progs")
+    for n in own_nodes(hf.node):
+        if isinstance(n, ast.If) and any(isinstance(c, ast.Call) and norm_stmt(c.func) == "state.prog_token"
+                                         for s2 in n.body if not isinstance(s2, (ast.If, ast.For, ast.While)) for c in ast.walk(s2)):
+            chk.count("L2-accumulation")
+            t = n.test
+            parts = [norm_stmt(v).strip("()") for v in (t.values if isinstance(t, ast.BoolOp) and isinstance(t.op, ast.Or) else [t])]
+            chk.require("endprog.text" in parts, "L2-accumulation", f"handle_fstring_progs:flush@{norm_stmt(t)[:40]}", f"{hf.rel}:{n.lineno}",
+                        f"the middle part is emitted only under `{norm_stmt(t)}`; text buffered from earlier lines of the f-string "
+                        f"(`endprog.text`) is dropped when the delimiter is the first character of a line")
+    # in brace mode the rest of the line belongs to the expression: the line-joining tail of handle_end_progs must not run
+    he = ix.get("handle_end_progs")
+    from ..pyflow import CFG
+    cfg = CFG(he.node)
+    starts = [c.id for c in cfg.nodes if c.stmt is not None and c.kind == "stmt" and "handle_fstring_progs(" in norm_stmt(c.stmt)]
+    joins = [c.id for c in cfg.nodes if c.stmt is not None and c.kind == "stmt" and ".join_line(" in norm_stmt(c.stmt)]
+    guards = [c.id for c in cfg.nodes if c.kind == "test" and "state.in_braces()" in c.label]
+    chk.count("L2-accumulation")
+    ok = bool(starts) and bool(joins)
+    if ok:
+        reach = cfg.reach(starts, edge_ok=lambda a, b, lab: not (a in guards and lab == "T"))
+        # after the f-string scanner ran, join_line may only be reached through the False edge of an in_braces() test
+        passed_guard = cfg.reach(starts, avoid=guards)
+        ok = not (set(joins) & passed_guard)
+    chk.require(ok, "L2-accumulation", "handle_end_progs:no-join-in-braces", he.where,
+                "after the f-string scanner has opened a replacement field the rest of the line is expression text; the line-joining tail "
+                "must be skipped when `state.in_braces()` (otherwise a field left open at a backslash-newline swallows the line without tokens)")
     rs = ix.get("EndProg.reset")
     chk.count("L2-accumulation")
     chk.require(sorted(norm_stmt(s) for s in rs.node.body) == ["self.contline = ''", "self.start = start", "self.text = ''"],
@@ -270,6 +302,6 @@ def run(chk: Check):
     rule_l4(chk, ix)
     from .c03 import rule_t1
     rule_t1(chk, ix)
-    chk.floor("L2-accumulation", 6)
+    chk.floor("L2-accumulation", 9)
     chk.floor("L3-coverage", 15)
     chk.floor("L4-block-structure", 4)
